@@ -1,6 +1,7 @@
 """C01 — a holder commitment is revoked only after its successor is counter-signed."""
 import lib
 from props import chan_common
+from props.chan_common import TIE, TRUST
 
 MANIFEST = dict(
     text="Coq theorem C01_secret_needs_successor: for every request history on a channel slot (all request kinds incl. the "
@@ -9,9 +10,12 @@ MANIFEST = dict(
          "C01_validated_means_signatures_verified: a ledger entry can only come from a validation request whose counterparty "
          "signatures verified; C01_stub_never for a channel that is not set up.  Invariant by induction over the history "
          "(Proofs/EnforcementProofs.v).  The model is run against the real Channel / ChannelHandler on the same histories in "
-         "both build profiles on every run, and a monitor checks the property on the implementation's own replies.",
+         "both build profiles on every run, and a monitor checks the property on the implementation's own replies." + TIE +
+         "C01_holder_validation_checks_are_source (validate_holder_state: retry-same, holder-not-revoked, closed channel; side "
+         "condition next_holder_commit_num < 2^64-1) and C01_holder_advance_is_source (the advance at a revocation is advance_h, "
+         "anything but the successor number is refused or panics).",
     design="§4 C01",
-    note=lib.TB + "Modelled, not verified: signature verification, the content policy and LDK's secret derivation enter as oracle "
+    note=lib.TB + TRUST + "Modelled, not verified: signature verification, the content policy and LDK's secret derivation enter as oracle "
          "booleans / identities (covered by C04, C05, C18); the theorem assumes the four tags it rests on are not downgraded by "
          "the policy filter.",
     technique="Coq proof (state-machine invariant by induction over request histories) + vm_compute correspondence with the Rust implementation",
@@ -19,5 +23,7 @@ MANIFEST = dict(
 
 
 def run(res):
-    chan_common.run(res, "C01.v", ["C01_secret_needs_successor", "C01_validated_means_signatures_verified",
-                                   "C01_stub_never", "C01_nonvacuous"], "C01")
+    chan_common.run_tied(res, "C01.v", ["C01_secret_needs_successor", "C01_validated_means_signatures_verified",
+                                        "C01_stub_never", "C01_nonvacuous",
+                                        "C01_holder_validation_checks_are_source", "C01_holder_advance_is_source"],
+                         "C01", "C01_holder_validation_checks_are_source")
